@@ -180,7 +180,7 @@ _add("SubSamplingWrapper:int", "SubSamplingWrapper", {"max_candidates": 2}, ["pw
 
 # strategies that need a mapping from candidates to X (feature-row candidates are refused: MappingError)
 for _k, _e in _E.items():
-    if _e["cls"] in ("Quire", "TypiClust", "ValueOfInformationEER", "DiscriminativeAL", "ProbCover", "CostEmbeddingAL"):
+    if _e["cls"] in ("Quire", "TypiClust", "ValueOfInformationEER", "DiscriminativeAL", "ProbCover", "CostEmbeddingAL", "Clue", "DropQuery"):
         _e["flags"]["rows"] = False
     if _e["cls"] == "EpistemicUncertaintySampling":
         _e["flags"]["binary"] = True  # documented: two-class problems only
